@@ -222,6 +222,8 @@ static void *peer_thread(void *arg) {
 	return NULL;
 }
 
+extern void _dispatch_iocntl(uint32_t param, uint64_t value);
+static long chunk_pages, max_reqs;
 static int kind_of(const char *s) { for (int i = 0; i < K_NKINDS; i++) if (!strcmp(s, kind_names[i])) return i; return -1; }
 static int load_program(const char *path) {
 	FILE *f = fopen(path, "r"); if (!f) return -1;
@@ -231,7 +233,8 @@ static int load_program(const char *path) {
 		if (sscanf(line, "%31s%n", w, &n) != 1 || w[0] == '#') continue;
 		char *rest = line + n;
 		if (!strcmp(w, "cfg")) { char k[32]; long v; int m; while (sscanf(rest, " %31[a-z_]=%ld%n", k, &v, &m) == 2) { rest += m; if (parse_cfg_kv(k, v)) continue;
-			if (!strcmp(k, "threads")) nthreads = (int)v; else if (!strcmp(k, "hqconc")) hq_concurrent = (int)v; else if (!strcmp(k, "inject")) inject_permille = (int)v; } }
+			if (!strcmp(k, "threads")) nthreads = (int)v; else if (!strcmp(k, "hqconc")) hq_concurrent = (int)v; else if (!strcmp(k, "inject")) inject_permille = (int)v;
+			else if (!strcmp(k, "chunkpages")) chunk_pages = v; else if (!strcmp(k, "maxreqs")) max_reqs = v; } }
 		else if (!strcmp(w, "chan")) { int id; chan_t c = { 0 }; if (sscanf(rest, "%d %d %d %d %ld %ld %ld %ld %lu", &id, &c.type, &c.transport, &c.dir, &c.lw, &c.hw, &c.interval_us, &c.pipesz, &c.file_len) < 8) return -2;
 			c.used = 1; c.fd_chan = c.fd_peer = -1; CH[id] = c; }
 		else if (!strcmp(w, "peer")) { int id, kind; long nn; if (sscanf(rest, "%d %d %ld", &id, &kind, &nn) < 3) return -3; if (CH[id].npeer < MAXPEEROPS) CH[id].peer[CH[id].npeer++] = (peerop_t){ kind, nn }; }
@@ -244,6 +247,10 @@ static int load_program(const char *path) {
 }
 static int create_channels(void) {
 	no_inject = 1;
+	// the library's own tuning SPI (used by its dispatch_io tests): a small I/O chunk size brings the chunk-boundary logic (buffers held back
+	// below the low-water mark, high-water marks between chunk multiples) within reach of small transfers
+	if (chunk_pages > 0) _dispatch_iocntl(1 /* DISPATCH_IOCNTL_CHUNK_PAGES */, (uint64_t)chunk_pages);
+	if (max_reqs > 0) _dispatch_iocntl(4 /* DISPATCH_IOCNTL_MAX_PENDING_IO_REQS */, (uint64_t)max_reqs);
 	hq = dispatch_queue_create("dvio.handlers", hq_concurrent ? DISPATCH_QUEUE_CONCURRENT : NULL);
 	for (int i = 0; i < MAXCH; i++) if (CH[i].used) {
 		chan_t *c = &CH[i]; int ci = i;
